@@ -149,6 +149,17 @@ def judge(prog: Program, run: dict[str, Any], info: dict[str, Any]) -> list[dict
         if per_down.get(sid, 0) > done_ups:
             problems.append(("downstream-triggered-twice",
                              f"stage {ref} received {per_down.get(sid, 0)} StartStage from {done_ups} completed upstream(s)", "trigger-twice"))
+    # 3b. planned once also means: each synthetic child (before / after stage) is created once per parent - storing
+    # them is the one part of a start that the optimistic lock on the parent row does not cover
+    made: dict[tuple[str, str, str], int] = {}
+    for sid_, info_ in h.stage_info.items():
+        if info_.get("parent"):
+            k_ = (info_["parent"], str(info_.get("owner")), str(info_.get("name")))
+            made[k_] = made.get(k_, 0) + 1
+    for (par, owner, name), n in made.items():
+        if n > 1:
+            problems.append(("synthetic-stage-created-twice", f"stage {h.key_of_stage(par)}: its {owner} child '{name}' was created {n} times "
+                                                                f"(two start handlings both planned it)", "synthetic-twice"))
     # 4. each task step once
     for x in check_ledger_unique(h, "C04"):
         problems.append(("task-ran-twice", x["msg"], "task-twice"))
